@@ -653,7 +653,10 @@ pub fn pipeline(c: &Value) -> Value {
         cfg
     };
     fn driver_is_single(cfgv: &Value) -> bool { cfgv.get("__single").and_then(|x| x.as_bool()).unwrap_or(false) }
+    let paces: Vec<u64> = c.get("pace_ms").and_then(|x| x.as_array()).map(|a| a.iter().map(|v| v.as_u64().unwrap_or(0)).collect()).unwrap_or_else(|| vec![0]);
     let one = |t: usize, run: usize| -> Result<Vec<u8>, String> {
+        // producer pacing: the same inputs and parameters pushed at a different speed (0 = as fast as possible)
+        let pace = paces[run % paces.len()];
         let path = tmp_path(&format!("pipe{}-{}", t, run));
         let (tx, rx) = mpsc::channel();
         let (samples2, splitters2, path2, driver2) = (samples.clone(), splitters.clone(), path.clone(), driver.clone());
@@ -664,7 +667,7 @@ pub fn pipeline(c: &Value) -> Value {
                 let mut comp = StreamingQueueCompressor::with_splitters(&path2, cfg, splitters2)?;
                 for (si, (sn, contigs)) in samples2.iter().enumerate() {
                     if si == 1 && driver2 == "single" { comp.drain()?; }
-                    for (cn, d) in contigs { comp.push(sn.clone(), cn.clone(), d.clone())?; }
+                    for (cn, d) in contigs { comp.push(sn.clone(), cn.clone(), d.clone())?; if pace > 0 { std::thread::sleep(std::time::Duration::from_millis(pace)); } }
                     if si == 0 && driver2 == "multi" { comp.drain()?; comp.sync_and_flush("AAA#0_REF")?; }
                 }
                 comp.finalize()
@@ -773,12 +776,13 @@ pub fn pipeline_dump(c: &Value) -> Value {
     let mut cfg = StreamingQueueConfig { k, segment_size: 4, min_match_len: 4, num_threads: threads, queue_capacity: c["qcap"].as_u64().unwrap_or(1 << 20) as usize, verbosity: 0, ..StreamingQueueConfig::default() };
     if let Some(v) = c["cfg"].get("pack_size").and_then(|x| x.as_u64()) { cfg.pack_size = v as usize; }
     if driver == "single" { cfg.concatenated_genomes = true; }
+    let pace = c.get("pace").and_then(|x| x.as_u64()).unwrap_or(0);
     let path = tmp_path("pipedump");
     let r = (|| -> anyhow::Result<()> {
         let mut comp = StreamingQueueCompressor::with_splitters(&path, cfg, splitters)?;
         for (si, (sn, contigs)) in samples.iter().enumerate() {
             if si == 1 && driver == "single" { comp.drain()?; }
-            for (cn, d) in contigs { comp.push(sn.clone(), cn.clone(), d.clone())?; }
+            for (cn, d) in contigs { comp.push(sn.clone(), cn.clone(), d.clone())?; if pace > 0 { std::thread::sleep(std::time::Duration::from_millis(pace)); } }
             if si == 0 && driver == "multi" { comp.drain()?; comp.sync_and_flush("AAA#0_REF")?; }
         }
         comp.finalize()
